@@ -13,6 +13,7 @@ import (
 	"time"
 
 	sdkmath "cosmossdk.io/math"
+	codectypes "github.com/cosmos/cosmos-sdk/codec/types"
 	abci "github.com/cometbft/cometbft/abci/types"
 	sdk "github.com/cosmos/cosmos-sdk/types"
 	banktypes "github.com/cosmos/cosmos-sdk/x/bank/types"
@@ -28,7 +29,9 @@ type ExecOpts struct {
 	QueryEvery    int
 	Trace         bool // C18/C19: per-tx KV write sets through the store tracer
 	ReplayK       int  // override number of shadow replicas
+	Lin           bool // C06: porcupine linearizability check of fixed-price bid histories
 	StopOnDiverge bool
+	OnBlock       func(e *execState, bo *blockObs) `json:"-"`
 	KeepTrace     bool
 }
 
@@ -438,6 +441,9 @@ func Execute(s *Schedule, opt ExecOpts) (res *RunResult) {
 			break
 		}
 	}
+	if opt.Lin {
+		e.linCheck()
+	}
 	e.finish(prev)
 	return
 }
@@ -487,6 +493,19 @@ func (e *execState) runBlock(bi int, blk *Block, prev *Snap) (*blockObs, bool) {
 	for i := range blk.Txs {
 		tx := &blk.Txs[i]
 		msg := e.buildMsg(&tx.Msg)
+		if tx.RawMsgJSON != "" {
+			var any codectypes.Any
+			if err := n.App.AppCodec().UnmarshalJSON([]byte(tx.RawMsgJSON), &any); err != nil {
+				res.HarnessErr = fmt.Sprintf("raw msg json block %d tx %d: %v", bi, i, err)
+				return bo, false
+			}
+			var m2 sdk.Msg
+			if err := n.App.AppCodec().InterfaceRegistry().UnpackAny(&any, &m2); err != nil {
+				res.HarnessErr = fmt.Sprintf("raw msg unpack block %d tx %d: %v", bi, i, err)
+				return bo, false
+			}
+			msg = m2
+		}
 		b, err := n.SignTx(&e.actors[tx.Actor], mTxs[ti].Seq, msg)
 		if err != nil {
 			res.HarnessErr = fmt.Sprintf("sign block %d tx %d: %v", bi, i, err)
@@ -524,6 +543,9 @@ func (e *execState) runBlock(bi int, blk *Block, prev *Snap) (*blockObs, bool) {
 	var dbBefore = (*memSnapshot)(nil)
 	if faultOf(blk, FLostCommit) != nil {
 		dbBefore = &memSnapshot{db: cloneDB(n.DB), height: n.Height, lastT: n.LastT}
+	}
+	if n.Trace != nil {
+		n.Trace.Take()
 	}
 	exec := func(node *Node, oeMode string) (BlockResult, []error) {
 		node.ResetRec()
@@ -804,6 +826,12 @@ func (e *execState) runBlock(bi int, blk *Block, prev *Snap) (*blockObs, bool) {
 		e.checkQueries(bo)
 	}
 	e.noteState(bo)
+	if e.opt.OnBlock != nil {
+		e.opt.OnBlock(e, bo)
+	}
+	if !diverged && !forcedDiverge {
+		e.linRecordBlock(bo)
+	}
 	if diverged || forcedDiverge {
 		res.Stats.Diverged = true
 		return bo, false
